@@ -1,165 +1,251 @@
-//! Child module of `hypercore::storage` (attached by the overlay): can build a `Storage` from
-//! hand-written backends.  C10: a failing storage operation surfaces as Err and stops the batch.
-#![allow(unused_imports, dead_code, future_incompatible, rust_2018_idioms, unsafe_code, missing_docs, missing_debug_implementations, unreachable_pub, clippy::all)]
+//! Child module of `hypercore::storage` in overlay variant "st": the REAL `storage/mod.rs`
+//! (mechanically de-asynced, its three futures-building constructors cut) compiled against the sync
+//! `RandomAccess` trait model.  C10: a failing storage operation surfaces as `Err` and the batch
+//! stops issuing operations; the instruction interpreter maps every `StoreInfo` /
+//! `StoreInfoInstruction` to exactly the backend call the sans-IO components asked for.
+#![allow(unused_imports, dead_code, future_incompatible, rust_2018_idioms, unsafe_code, static_mut_refs, missing_docs, missing_debug_implementations, unreachable_pub, clippy::all)]
 use super::*;
 use crate::common::{Store, StoreInfo, StoreInfoInstruction};
 use crate::verif::util::*;
 use random_access_storage::{RandomAccess, RandomAccessError};
-use std::cell::RefCell;
-use std::future::Future;
-use std::pin::Pin;
-use std::rc::Rc;
-use std::task::{Context, Poll, RawWaker, RawWakerVTable, Waker};
 
-/// Journal shared by the four backends: how many operations were issued, which one fails.
-#[derive(Debug, Default)]
-pub(crate) struct Journal {
-    pub issued: u32,
-    pub fail_at: u32, // the operation with this ordinal (0-based) returns an I/O error
-    pub writes: u32,
-    pub dels: u32,
-    pub truncates: u32,
-    pub reads: u32,
-    pub last_store: u8,
+pub(crate) const K_WRITE: u8 = 1;
+pub(crate) const K_READ: u8 = 2;
+pub(crate) const K_DEL: u8 = 3;
+pub(crate) const K_TRUNC: u8 = 4;
+pub(crate) const K_LEN: u8 = 5;
+
+#[derive(Clone, Copy, PartialEq, Eq, Debug)]
+pub(crate) struct Rec {
+    pub store: u8,
+    pub kind: u8,
+    pub a: u64,
+    pub b: u64,
+}
+const NO: Rec = Rec { store: 9, kind: 0, a: 0, b: 0 };
+
+/// journal shared by the four backends
+static mut ISSUED: u32 = 0;
+static mut FAIL_AT: u32 = u32::MAX; // the operation with this ordinal fails ...
+static mut FAIL_OOB: bool = false; // ... with OutOfBounds instead of an I/O error
+static mut LOG: [Rec; 8] = [NO; 8];
+static mut FILE_LEN: u64 = 0;
+
+fn issued() -> u32 {
+    unsafe { ISSUED }
+}
+fn log(i: usize) -> Rec {
+    unsafe { LOG[i] }
 }
 
-#[derive(Debug, Clone)]
-pub(crate) struct Faulty {
+/// Recording backend: every call is journaled (store, kind, arguments); the `FAIL_AT`-th fails.
+#[derive(Debug)]
+pub(crate) struct Backend {
     pub id: u8,
-    pub j: Rc<RefCell<Journal>>,
 }
-unsafe impl Send for Faulty {}
-unsafe impl Sync for Faulty {}
 
-impl Faulty {
-    fn step(&self) -> Result<(), RandomAccessError> {
-        let mut j = self.j.borrow_mut();
-        let n = j.issued;
-        j.issued += 1;
-        j.last_store = self.id;
-        if n == j.fail_at {
-            Err(RandomAccessError::IO { return_code: None, context: None, source: std::io::Error::from(std::io::ErrorKind::Other) })
-        } else {
-            Ok(())
+impl Backend {
+    fn step(&self, kind: u8, a: u64, b: u64) -> Result<(), RandomAccessError> {
+        unsafe {
+            let n = ISSUED;
+            assert!(n < 8, "journal capacity (stated bound)");
+            LOG[n as usize] = Rec { store: self.id, kind, a, b };
+            ISSUED = n + 1;
+            if n == FAIL_AT {
+                if FAIL_OOB {
+                    Err(RandomAccessError::OutOfBounds { offset: a, end: None, length: FILE_LEN })
+                } else {
+                    Err(RandomAccessError::IO { return_code: None, context: None, source: std::io::Error::from(std::io::ErrorKind::Other) })
+                }
+            } else {
+                Ok(())
+            }
         }
     }
 }
 
-type R<'a, T> = Pin<Box<dyn Future<Output = Result<T, RandomAccessError>> + Send + 'a>>;
-impl RandomAccess for Faulty {
-    fn write<'a, 'b, 'c>(&'a mut self, _offset: u64, _data: &'b [u8]) -> R<'c, ()> where 'a: 'c, 'b: 'c, Self: 'c {
-        let r = self.step();
-        self.j.borrow_mut().writes += 1;
-        Box::pin(std::future::ready(r))
+impl RandomAccess for Backend {
+    fn write(&mut self, offset: u64, data: &[u8]) -> Result<(), RandomAccessError> {
+        self.step(K_WRITE, offset, data.len() as u64)
     }
-    fn read<'a, 'c>(&'a mut self, _offset: u64, length: u64) -> R<'c, Vec<u8>> where 'a: 'c, Self: 'c {
-        let r = self.step().map(|_| vec![0u8; 8]);
+    fn read(&mut self, offset: u64, length: u64) -> Result<Vec<u8>, RandomAccessError> {
+        self.step(K_READ, offset, length)?;
+        // contents are not the subject here (and a symbolic-size allocation is out of reach): always
+        // 8 bytes tagged with the store id; the requested length is in the journal
         let _ = length;
-        self.j.borrow_mut().reads += 1;
-        Box::pin(std::future::ready(r))
+        Ok(vec![self.id; 8])
     }
-    fn del<'a, 'c>(&'a mut self, _offset: u64, _length: u64) -> R<'c, ()> where 'a: 'c, Self: 'c {
-        let r = self.step();
-        self.j.borrow_mut().dels += 1;
-        Box::pin(std::future::ready(r))
+    fn del(&mut self, offset: u64, length: u64) -> Result<(), RandomAccessError> {
+        self.step(K_DEL, offset, length)
     }
-    fn truncate<'a, 'c>(&'a mut self, _length: u64) -> R<'c, ()> where 'a: 'c, Self: 'c {
-        let r = self.step();
-        self.j.borrow_mut().truncates += 1;
-        Box::pin(std::future::ready(r))
+    fn truncate(&mut self, length: u64) -> Result<(), RandomAccessError> {
+        self.step(K_TRUNC, length, 0)
     }
-    fn len<'a, 'c>(&'a mut self) -> R<'c, u64> where 'a: 'c, Self: 'c {
-        let r = self.step().map(|_| 8u64);
-        Box::pin(std::future::ready(r))
+    fn len(&mut self) -> Result<u64, RandomAccessError> {
+        self.step(K_LEN, 0, 0)?;
+        Ok(unsafe { FILE_LEN })
     }
-    fn is_empty<'a, 'c>(&'a mut self) -> R<'c, bool> where 'a: 'c, Self: 'c {
-        Box::pin(std::future::ready(Ok(false)))
+    fn is_empty(&mut self) -> Result<bool, RandomAccessError> {
+        Ok(unsafe { FILE_LEN } == 0)
     }
-    fn sync_all<'a, 'c>(&'a mut self) -> R<'c, ()> where 'a: 'c, Self: 'c {
-        Box::pin(std::future::ready(Ok(())))
+    fn sync_all(&mut self) -> Result<(), RandomAccessError> {
+        Ok(())
     }
 }
 
-fn noop_waker() -> Waker {
-    fn clone(_: *const ()) -> RawWaker {
-        RawWaker::new(std::ptr::null(), &VT)
+fn storage() -> Storage {
+    unsafe {
+        ISSUED = 0;
     }
-    fn noop(_: *const ()) {}
-    static VT: RawWakerVTable = RawWakerVTable::new(clone, noop, noop, noop);
-    unsafe { Waker::from_raw(RawWaker::new(std::ptr::null(), &VT)) }
-}
-
-/// Poll a future that never yields (the backends return ready futures): exactly one poll.
-pub(crate) fn run<F: Future>(f: F) -> F::Output {
-    let w = noop_waker();
-    let mut cx = Context::from_waker(&w);
-    let mut f = Box::pin(f);
-    match f.as_mut().poll(&mut cx) {
-        Poll::Ready(v) => v,
-        Poll::Pending => panic!("backend future yielded"),
+    Storage {
+        tree: Box::new(Backend { id: 0 }),
+        data: Box::new(Backend { id: 1 }),
+        bitfield: Box::new(Backend { id: 2 }),
+        oplog: Box::new(Backend { id: 3 }),
     }
 }
 
-pub(crate) fn faulty_storage(fail_at: u32) -> (Storage, Rc<RefCell<Journal>>) {
-    let j = Rc::new(RefCell::new(Journal { fail_at, ..Default::default() }));
-    let s = Storage {
-        tree: Box::new(Faulty { id: 0, j: j.clone() }),
-        data: Box::new(Faulty { id: 1, j: j.clone() }),
-        bitfield: Box::new(Faulty { id: 2, j: j.clone() }),
-        oplog: Box::new(Faulty { id: 3, j: j.clone() }),
-    };
-    (s, j)
-}
-
-/// C10-U1: flush_infos over a batch of three operations (write to oplog, delete in data, truncate
-/// of the oplog) with the k-th storage operation failing (k symbolic, possibly none):
-/// the call returns Err iff an operation failed, issues no operation after the failing one, and
-/// issues all three otherwise.
+/// C10-U1a: `flush_infos` on a batch that touches three stores with all three kinds of operation:
+/// write (Content), delete (Content + miss), truncate (Size + miss), then a write to another store.
+/// For EVERY position of the failing operation (or none) and every value of the offsets/lengths:
+/// the call returns Err iff an operation failed, the operations issued are exactly the prefix up to
+/// and including the failing one (nothing is issued after a failure), and each issued operation
+/// is the backend call the `StoreInfo` asked for (store, kind, offset, length).
 #[kani::proof]
 #[kani::stub(std::fmt::format, stub_format)]
 fn c10_flush_infos_fault() {
-    let k: u32 = kani::any();
-    kani::assume(k <= 3);
-    let (mut storage, j) = faulty_storage(k);
-    let infos = [
-        StoreInfo::new_content(Store::Oplog, 8192, &[1, 2, 3]),
-        StoreInfo::new_delete(Store::Data, 0, 4),
-        StoreInfo::new_truncate(Store::Oplog, 8192),
-    ];
-    let r = run(storage.flush_infos(&infos));
-    let jj = j.borrow();
-    if k < 3 {
-        assert!(r.is_err());
-        assert!(jj.issued == k + 1); // nothing after the failing operation
-    } else {
-        assert!(r.is_ok());
-        assert!(jj.issued == 3 && jj.writes == 1 && jj.dels == 1 && jj.truncates == 1);
+    let fail_at: u32 = kani::any();
+    kani::assume(fail_at <= 4);
+    let oob: bool = kani::any();
+    unsafe {
+        FAIL_AT = fail_at;
+        FAIL_OOB = oob;
     }
-    kani::cover!(k == 1, "second operation fails");
+    let (i0, i1, l1, i2, i3): (u64, u64, u64, u64, u64) = (kani::any(), kani::any(), kani::any(), kani::any(), kani::any());
+    let infos = [
+        StoreInfo::new_content(Store::Oplog, i0, &[1u8, 2, 3]),
+        StoreInfo::new_delete(Store::Data, i1, l1),
+        StoreInfo::new_truncate(Store::Oplog, i2),
+        StoreInfo::new_content(Store::Tree, i3, &[9u8; 5]),
+    ];
+    let mut st = storage();
+    let r = st.flush_infos(&infos);
+    assert!(r.is_err() == (fail_at < 4));
+    let n = issued();
+    assert!(n == if fail_at < 4 { fail_at + 1 } else { 4 });
+    if n >= 1 {
+        assert!(log(0) == Rec { store: 3, kind: K_WRITE, a: i0, b: 3 });
+    }
+    if n >= 2 {
+        assert!(log(1) == Rec { store: 1, kind: K_DEL, a: i1, b: l1 });
+    }
+    if n >= 3 {
+        assert!(log(2) == Rec { store: 3, kind: K_TRUNC, a: i2, b: 0 });
+    }
+    if n >= 4 {
+        assert!(log(3) == Rec { store: 0, kind: K_WRITE, a: i3, b: 5 });
+    }
+    kani::cover!(r.is_err(), "a failure is reachable");
     kani::cover!(true, "reached end");
     std::mem::forget(r);
+    std::mem::forget(st);
+    std::mem::forget(infos);
 }
 
-/// C10-U1: read_infos_to_vec with a failing read / length query: Err, and nothing after it.
+/// C10-U1b: `flush_info` (single) and an empty batch.
+#[kani::proof]
+#[kani::stub(std::fmt::format, stub_format)]
+fn c10_flush_info_single() {
+    let fail: bool = kani::any();
+    unsafe {
+        FAIL_AT = if fail { 0 } else { u32::MAX };
+        FAIL_OOB = kani::any();
+    }
+    let i0: u64 = kani::any();
+    let mut st = storage();
+    let r0 = st.flush_infos(&[]);
+    assert!(r0.is_ok() && issued() == 0);
+    let r = st.flush_info(StoreInfo::new_content(Store::Bitfield, i0, &[7u8; 4]));
+    assert!(r.is_err() == fail);
+    assert!(issued() == 1 && log(0) == Rec { store: 2, kind: K_WRITE, a: i0, b: 4 });
+    kani::cover!(true, "reached end");
+    std::mem::forget(r);
+    std::mem::forget(st);
+}
+
+/// C10-U1c: `read_infos_to_vec` on [content with explicit length (tree), size (bitfield),
+/// whole-file content (oplog: len then read)]: 4 backend operations.  For every position of the
+/// failing operation (I/O error): Err iff one failed, nothing issued after it, each operation is
+/// the one the instruction asked for; on success the infos carry the store, index and what was read.
 #[kani::proof]
 #[kani::stub(std::fmt::format, stub_format)]
 fn c10_read_infos_fault() {
-    let k: u32 = kani::any();
-    kani::assume(k <= 2);
-    let (mut storage, j) = faulty_storage(k);
-    let instr = [
-        StoreInfoInstruction::new_content(Store::Tree, 0, 8),
-        StoreInfoInstruction::new_content(Store::Tree, 40, 8),
-    ];
-    let r = run(storage.read_infos_to_vec(&instr));
-    let jj = j.borrow();
-    if k < 2 {
-        assert!(r.is_err());
-        assert!(jj.issued == k + 1);
-    } else {
-        assert!(r.is_ok());
-        assert!(jj.issued == 2 && jj.reads == 2);
+    let fail_at: u32 = kani::any();
+    kani::assume(fail_at <= 4);
+    let flen: u64 = kani::any();
+    kani::assume(flen < (1 << 40));
+    let (i0, i1): (u64, u64) = (kani::any(), kani::any());
+    kani::assume(i1 <= flen);
+    unsafe {
+        FAIL_AT = fail_at;
+        FAIL_OOB = false;
+        FILE_LEN = flen;
     }
+    let ins = [
+        StoreInfoInstruction::new_content(Store::Tree, i0, 8),
+        StoreInfoInstruction::new_size(Store::Bitfield, i1),
+        StoreInfoInstruction::new_all_content(Store::Oplog),
+    ];
+    let mut st = storage();
+    let r = st.read_infos_to_vec(&ins);
+    assert!(r.is_err() == (fail_at < 4));
+    let n = issued();
+    assert!(n == if fail_at < 4 { fail_at + 1 } else { 4 });
+    if n >= 1 {
+        assert!(log(0) == Rec { store: 0, kind: K_READ, a: i0, b: 8 });
+    }
+    if n >= 2 {
+        assert!(log(1) == Rec { store: 2, kind: K_LEN, a: 0, b: 0 });
+    }
+    if n >= 3 {
+        assert!(log(2) == Rec { store: 3, kind: K_LEN, a: 0, b: 0 });
+    }
+    if n >= 4 {
+        assert!(log(3) == Rec { store: 3, kind: K_READ, a: 0, b: flen });
+    }
+    if let Ok(v) = &r {
+        assert!(v.len() == 3);
+        assert!(v[0].store == Store::Tree && v[0].index == i0 && !v[0].miss && v[0].data.as_ref().unwrap().len() == 8);
+        assert!(v[1].store == Store::Bitfield && v[1].index == i1 && v[1].length == Some(flen - i1));
+        assert!(v[2].store == Store::Oplog && v[2].index == 0 && !v[2].miss);
+    }
+    kani::cover!(r.is_ok(), "success is reachable");
     kani::cover!(true, "reached end");
     std::mem::forget(r);
+    std::mem::forget(st);
+}
+
+/// C10-U1d: an out-of-bounds read is a *miss* exactly when the instruction allows it and an error
+/// otherwise (never success with made-up data); `read_info` returns the single info.
+#[kani::proof]
+#[kani::stub(std::fmt::format, stub_format)]
+fn c10_read_out_of_bounds() {
+    let allow: bool = kani::any();
+    let i0: u64 = kani::any();
+    unsafe {
+        FAIL_AT = 0;
+        FAIL_OOB = true;
+        FILE_LEN = 0;
+    }
+    let ins = if allow { StoreInfoInstruction::new_content_allow_miss(Store::Tree, i0, 40) } else { StoreInfoInstruction::new_content(Store::Tree, i0, 40) };
+    let mut st = storage();
+    let r = st.read_info(ins);
+    assert!(r.is_ok() == allow);
+    if let Ok(info) = &r {
+        assert!(info.miss && info.index == i0 && info.store == Store::Tree);
+    }
+    assert!(issued() == 1 && log(0) == Rec { store: 0, kind: K_READ, a: i0, b: 40 });
+    kani::cover!(true, "reached end");
+    std::mem::forget(r);
+    std::mem::forget(st);
 }
